@@ -2,6 +2,7 @@ import RxProofs.Lemmas.SubjThm
 import RxProofs.Lemmas.SubjNat
 import RxProofs.Lemmas.SubjFlat
 import RxProofs.Lemmas.SubjOrder
+import RxProofs.Lemmas.SubjReact
 /-!
 # C20 — a Subject broadcasts to exactly the observers subscribed at the time
 
@@ -160,6 +161,29 @@ theorem subject_natural {β : Type} (cfg : Cfg) (g : α → β) (fuel : Nat) (v 
     (run cfg fuel (init cfg (v.map g)) (calls.map (Call.map g))).1.observers = (run cfg fuel (init cfg v) calls).1.observers :=
   run_natural_log cfg g fuel v calls i
 
+/-- **unsub_reactions_closed_form.**  Histories whose callbacks *unsubscribe* (themselves or any other
+observer, at any of their invocations, any number of them; every observer has an `on_error`): whenever the
+run did not exhaust its fuel — which the correspondence check requires of every case it compares — every
+observer's final log, the subject's final observer list and the set of detached observers are what
+`Subj.absRun` computes.  `absRun` (`RxProofs/Lemmas/SubjReact.lean`) is the property text as a plain
+recursive function over the history: a broadcast walks the members *as they were when the call was made*,
+skips those detached by then (so an observer unsubscribed by an earlier observer's callback in the same
+delivery misses that very notification), appends the notification to the others' logs, and applies each
+callback's unsubscriptions at once; a handle can only be disposed once `subscribe` has returned it.  No
+AutoDetachObserver, SingleAssignmentDisposable, InnerSubscription, agenda or trace appears in it. -/
+theorem unsub_reactions_closed_form {cfg : Cfg} (hc : UnsubCfg cfg) (calls : List (Call α)) (fuel : Nat)
+    (hoof : (run cfg fuel (init cfg none) calls).1.oof = false) :
+    (∀ i, (run cfg fuel (init cfg none) calls).1.log i = (absRun cfg ({} : AbsSt α) calls).log i) ∧
+    (run cfg fuel (init cfg none) calls).1.observers = (absRun cfg ({} : AbsSt α) calls).members ∧
+    (∀ i, (run cfg fuel (init cfg none) calls).1.adoStopped i = (absRun cfg ({} : AbsSt α) calls).detached i) :=
+  run_unsub_closed_form' hc calls fuel hoof
+
+/-- … and enough fuel always exists. -/
+theorem unsub_reactions_enough_fuel {cfg : Cfg} (hc : UnsubCfg cfg) (calls : List (Call α)) :
+    ∃ N, ∀ fuel, N ≤ fuel → (run cfg fuel (init cfg (none : Option α)) calls).1.oof = false := by
+  obtain ⟨N, h⟩ := run_unsub_total hc calls
+  exact ⟨N, h⟩
+
 /-- What the correspondence check executes (`Subj.run`, any fuel, any history) stays inside the
 reachable configurations all theorems above quantify over. -/
 theorem run_reachable (cfg : Cfg) (v : Option α) (fuel : Nat) (calls : List (Call α)) :
@@ -197,6 +221,36 @@ example : flatLog 2 {} [Call.sub 0, .next 1, .sub 1, .next 2, .unsub 1, .next 3,
     [Notif.completed] := by decide
 example : flatLog 0 {} [Call.sub 0, .next 1, .sub 1, .next 2, .unsub 1, .next (3 : Nat), .completed, .sub 2, .sub 1] =
     [.next 1, .next 2, .next 3, .completed] := by decide
+/-- closed form with unsubscribing callbacks: 0's first callback unsubscribes 1 (after it in the same
+delivery: misses `7`), 2's second callback unsubscribes itself and 0 -/
+def unCfg : Cfg :=
+  { kind := .subject, hasErr := fun _ => true
+    react := fun i k => if i = 0 ∧ k = 0 then [.unsub 1] else if i = 2 ∧ k = 1 then [.unsub 2, .unsub 0] else [] }
+
+theorem unCfg_ok : UnsubCfg unCfg where
+  kind := rfl
+  err := fun _ => rfl
+  react := by
+    intro i k a h
+    simp only [unCfg] at h
+    split at h
+    · exact ⟨1, by simpa using h⟩
+    · split at h
+      · simp only [List.mem_cons, List.not_mem_nil, or_false] at h
+        rcases h with h | h
+        · exact ⟨2, h⟩
+        · exact ⟨0, h⟩
+      · simp at h
+
+def unCalls : List (Call Nat) := [.sub 0, .sub 1, .sub 2, .next 7, .next 8, .next 9, .sub 3, .completed, .sub 4]
+example : (absRun unCfg ({} : AbsSt Nat) unCalls).log 0 = [.next 7, .next 8] := by decide
+example : (absRun unCfg ({} : AbsSt Nat) unCalls).log 1 = [] := by decide
+example : (absRun unCfg ({} : AbsSt Nat) unCalls).log 2 = [.next 7, .next 8] := by decide
+example : (absRun unCfg ({} : AbsSt Nat) unCalls).log 3 = [.completed] := by decide
+example : (absRun unCfg ({} : AbsSt Nat) unCalls).log 4 = [.completed] := by decide
+example : (run unCfg 100 (init unCfg none) unCalls).1.oof = false := by decide
+example : (run unCfg 100 (init unCfg none) unCalls).1.log 2 = [.next 7, .next 8] := by decide
+
 /-- the hypotheses of `late_gets_terminal_only` are satisfiable -/
 example : (run { exCfg with react := fun _ _ => [] } 100 (init exCfg (none : Option Nat))
     [.sub 0, .next 1, .error "boom", .sub 1, .next 2]).1.log 1 = [.error "boom"] := by decide
